@@ -8,8 +8,12 @@ operations = Lean `Float`, table/signatures = regenerated `Kap.C04.Gen`) and on 
   * the property itself on the OBSERVED answer (SPECFAIL, checked first; no recorded deviation is left: the clause for
     `nested-lambda-state-shared` went with `fix:` 8ed14ac), and
   * observed = model (MISMATCH).
+Regex matching (`=~` `!~`): patterns of the DEFINED fragment (literal bytes and the text anchors, Model/C04Re.lean) are
+answered by `Re.matchB` in model and reference; every other pattern by the `re` lines, which the harness computes with
+`regexp.MatchString` itself (never through kapacitor). The `re` lines of fragment patterns are compared with the definition.
 -/
 import Kap.Spec.C04
+import Kap.Model.C04Re
 import Kap.Gen.C04
 import Kap.Gen.C04Sigs
 open Kap Kap.C04
@@ -208,12 +212,49 @@ structure Ora where
   calls : List (String × List String × ORes Float) := []   -- fn, rendered args, result
   res : List (Bytes × Bytes × Bool) := []
 
+/-- regex matching: patterns of the defined fragment (literal bytes and text anchors, `Re.native`) are answered by the
+definition - for ANY subject, computed operands included -, every other pattern by the library's answer in the case's
+`re` table. (Each `re` line of a fragment pattern is also compared with the definition, see `judge`.) -/
+def reMatchOf (o : Ora) (p s : Bytes) : Option Bool :=
+  match Re.native p s with
+  | some b => some b
+  | none => (o.res.find? (fun x => x.1 == p && x.2.1 == s)).map (·.2.2)
+
 def mkCtx (o : Ora) : Ctx Float :=
   { ops := floatOps, tbl := Gen.table, sigs := Gen.sigs,
-    reMatch := fun p s => (o.res.find? (fun x => x.1 == p && x.2.1 == s)).map (·.2.2),
+    reMatch := reMatchOf o,
     call := fun fn args =>
       let key := args.map renderVal
       (o.calls.find? (fun x => x.1 == fn && x.2.1 == key)).map (·.2.2) }
+
+/-- the value of a leaf operand (literal, bound reference, a lambda around one). -/
+def leafVal (σ : Scope Float) : E → Option V
+  | .lit v => some v
+  | .ref n => σ.get n
+  | .lam _ e => leafVal σ e
+  | _ => none
+
+/-- structural cases of one `=~` / `!~` evaluation: is the pattern in the defined fragment, how is it anchored, how does
+the subject relate to the literal, and - the case that separates an anchored literal from a substring search - do the
+anchors DECIDE the answer (the subject contains the literal, yet the pattern does not match). -/
+def reBr (ctx : Ctx Float) (σ : Scope Float) (l r : E) : List String :=
+  match leafVal σ l, leafVal σ r with
+  | some (.str s), some (.regex p) =>
+    match Re.atoms p with
+    | none =>
+      ["re-oracle-pattern"] ++
+      (match ctx.reMatch p s with | some true => ["re-match"] | some false => ["re-nomatch"] | none => ["re-no-oracle-entry"])
+    | some as =>
+      ["re-defined-fragment", if Re.matchB as s then "re-match" else "re-nomatch"] ++
+      (match Re.shape as with
+       | some (st, w, en) =>
+         [if st && en then "re-anchored-both" else if st then "re-anchored-start" else if en then "re-anchored-end" else "re-unanchored"] ++
+         (if w.isEmpty then ["re-empty-literal"] else []) ++
+         (if s == w then ["re-subject-is-literal"] else if Lib.contains s w then ["re-subject-contains-literal"] else ["re-subject-without-literal"]) ++
+         (if Re.matchB as s != Lib.contains s w then
+            [if st && en then "re-both-anchors-decide" else if st then "re-start-anchor-decides" else "re-end-anchor-decides"] else [])
+       | none => ["re-anchor-inside"])
+  | _, _ => ["re-operand-not-a-string-value"]
 
 /-- model branches visible at one evaluation (node-local conditions on the actual operand types). -/
 partial def brOf (ctx : Ctx Float) (σ : Scope Float) : E → Cache → List String
@@ -241,7 +282,8 @@ partial def brOf (ctx : Ctx Float) (σ : Scope Float) : E → Cache → List Str
         | none, _ => ["dyn-left-type-err"]
         | _, none => ["dyn-right-type-err"]
       else ["const-node"]
-    here ++ brOf ctx σ l c.k1 ++ brOf ctx σ r c.k2
+    let re := if op == .reEq || op == .reNe then reBr ctx σ l r else []
+    here ++ re ++ brOf ctx σ l c.k1 ++ brOf ctx σ r c.k2
   | .call0 fn, _ => [if stateful (F := Float) (.call0 fn) then "call-stateful" else "call0"]
   | .call1 fn a, c =>
     [if stateful (F := Float) (.call0 fn) then "call-stateful" else if fn == "isPresent" then "call-isPresent"
@@ -334,6 +376,12 @@ def judge (_id : String) (lines : Array String) : Verdict := Id.run do
     | ["re", p, s, b] =>
       let some p := unescRaw p | return .badop l
       let some s := unescRaw s | return .badop l
+      -- the library's answer against the DEFINITION of the fragment (ties Model/C04Re.lean to regexp.MatchString)
+      match Re.native p s with
+      | some d =>
+        if d != (b == "1") then
+          return .mismatch s!"regex fragment: the definition answers {boolTok d}, the Go library {b}: {l}"
+      | none => pure ()
       st := { st with ora := { st.ora with res := (p, s, b == "1") :: st.ora.res } }
     | "ora" :: fn :: rest =>
       -- ora <fn> <args…> <res>
